@@ -63,11 +63,16 @@ class Universe:
             fh.write("module example.com/minigo\n\ngo 1.21\n")
         for i in range(0, len(names), per_file):
             chunk = names[i:i + per_file]
-            d = os.path.join(base_dir, "pk%d" % k)
+            # every file is package example.com/minigo/pk of its OWN module root, so that all instances
+            # have the same package identity (package-local helpers are referenced by qualified name)
+            root = os.path.join(base_dir, "r%d" % k)
+            d = os.path.join(root, "pk")
             os.makedirs(d)
+            with open(os.path.join(root, "go.mod"), "w") as fh:
+                fh.write("module example.com/minigo\n\ngo 1.21\n")
             path = os.path.join(d, "f.go")
             with open(path, "w") as fh:
-                fh.write(minigo.render_file("pk%d" % k, [(self.inst[n][0], n, self.inst[n][1]) for n in chunk]))
+                fh.write(minigo.render_file("pk", [(self.inst[n][0], n, self.inst[n][1]) for n in chunk]))
             for n in chunk:
                 where[n] = path
             k += 1
